@@ -12,7 +12,8 @@ RUNS = {"quick": 40, "thorough": 400}
 RUN_ALARM = 900
 RULE = ("for each seeded protocol-conformant program (as C09: 1-3 threads, with and without OVNI_TMPDIR) the fault-free run numbers its N "
         "file-system steps; then every step k x every error that call can return (mkdir: EACCES ENOSPC EROFS; open/fopen/opendir: EACCES "
-        "EMFILE ENOENT ENOSPC; write/fwrite: ENOSPC EIO EINTR and short counts; fclose: ENOSPC; close: EIO; fread: EIO; readdir: early end "
+        "EMFILE ENOENT ENOSPC; write/fwrite: ENOSPC EIO EINTR and short counts; fclose: ENOSPC; close: EIO, and EIO with the tail of the "
+        "accepted writes lost (write-behind storage); fread: EIO; readdir: early end "
         "with EIO; remove/rmdir: EACCES EBUSY; stat: EACCES) is injected ALONE, plus the persistent 'disk full from step k' variant; "
         "evaluations = faulty executions; distinct = (plan, step, fault); non-trivial = the fault hit after some thread had flushed events")
 REAL = ["src/rt/ovni.c, src/common.c, src/parson.c (ASan+UBSan) and ovniemu -l built from /repo's working tree"]
@@ -37,6 +38,9 @@ def faults_for(step, quick):
     if step.call in ("write", "fwrite") and step.req > 1:
         out.append(("short:half", (step.k, 0, max(1, step.req // 2), 0)))
         out.append(("short:1", (step.k, 0, 1, 0)))
+    if step.call == "close":
+        # the error of write-behind storage: reported by close, and the tail of the accepted writes is gone
+        out.append(("close:EIO-writes-lost", (step.k, E["EIO"], 1, 0)))
     if step.call == "fread" and step.ret > 1:
         out.append(("short-read", (step.k, 0, max(1, step.ret // 2), 0)))
     return out
@@ -133,6 +137,8 @@ def run(case, ctx):
                     wr = [x for x in hh.steps if x.call == "write" and x.path.endswith("thread.%d/stream.obs" % tid)]
                     if any(x.ret < 0 for x in wr):
                         continue
+                    if name == "close:EIO-writes-lost" and s.path.endswith("thread.%d/stream.obs" % tid):
+                        continue        # the storage lost this copy, not the runtime: aborting with a diagnostic is all it can do
                     exp = rt.expected_user_events(plan.ops[t], hh, t, upto_op=lastflush[t])
                     places = [rtgen.stream_dir(out.root, plan.knobs, tid), rtgen.tmp_stream_dir(out.root, plan.knobs, tid)]
                     ok = False
